@@ -79,7 +79,7 @@ func genBatch(r *RNG, withBad bool, maxLines int) *Scenario {
 		func(w *World) string { return fmt.Sprintf("ETpot=%d", r.Range(1, 5)) },
 		func(w *World) string { return fmt.Sprintf("LeachingDepth=%d", r.Range(1, w.Soil.N())) },
 	}
-	badKinds := []string{"unknown-soil", "unknown-field", "bad-texture", "bad-fractions", "weather-gap", "till-in-crop", "startyear"}
+	badKinds := []string{"unknown-soil", "unknown-field", "bad-texture", "bad-fractions", "weather-gap", "till-in-crop", "startyear", "weather-late"}
 	for i := 0; i < nl; i++ {
 		wi := r.Intn(nw)
 		w := sc.Worlds[wi]
@@ -96,6 +96,9 @@ func genBatch(r *RNG, withBad bool, maxLines int) *Scenario {
 			if bl.Bad == "till-in-crop" && len(w.Rot) < 2 {
 				bl.Bad = "unknown-soil" // no crop in this world: the tillage class cannot be built
 			}
+			if bl.Bad == "weather-late" && w.earlyFieldDays() == 0 {
+				bl.Bad = "weather-gap"
+			}
 			switch bl.Bad {
 			case "unknown-soil":
 				bl.Extra = append(bl.Extra, "soilId=7ZZ")
@@ -107,11 +110,17 @@ func genBatch(r *RNG, withBad bool, maxLines int) *Scenario {
 				bl.Extra = append(bl.Extra, "soilId=8F1", fmt.Sprintf("PTF=%d", r.Range(1, 4)))
 			case "weather-gap":
 				bl.Extra = append(bl.Extra, "fcode="+w.FCode+"gap")
+			case "weather-late":
+				// the field starts before the first record of a series that another (good) line of the batch may have read already
+				bl.Extra = append(bl.Extra, "plotNr=19003", "fcode="+w.FCode+"late")
 			case "till-in-crop":
 				bl.Extra = append(bl.Extra, "plotNr=19002")
 			case "startyear":
 				bl.Extra = append(bl.Extra, fmt.Sprintf("StartYear=%d", w.Cfg.StartYear+r.PickI([]int{-1, 1})))
 			}
+		}
+		if lw := sc.Worlds[bl.World]; withBad && bl.Bad == "" && lw.earlyFieldDays() > 0 && r.Bool(0.35) && !strings.Contains(strings.Join(bl.Extra, " "), "fcode=") {
+			bl.Extra = append(bl.Extra, "fcode="+lw.FCode+"late") // covered: the series begins on this field's first day
 		}
 		sc.Lines = append(sc.Lines, bl)
 	}
@@ -607,6 +616,10 @@ func execBatch(sc *Scenario, env *Env) *Result {
 			res.add("fault.bad-line."+sc.Lines[i].Bad, 1)
 		} else if !refs[i].success {
 			res.add("good.line.fails", 1)
+			res.add("good.line.fails."+errorClassOf(refs[i].err), 1)
+			if os.Getenv("VERIF_DEBUG_BATCH") != "" {
+				fmt.Fprintf(os.Stderr, "DEBUG good line fails: %s: %s\n", sc.lineText(i), refs[i].err)
+			}
 		}
 	}
 	mode := sc.Params["mode"]
